@@ -330,7 +330,7 @@ fn cpu_time() -> f64 {
 pub fn run_iceflood(run: &mut Run, mode: u8, count: u32) {
     let case = format!("iceflood {mode} {count}");
     let r = super::catch_ack(move || {
-        let mut out = (0u64, 0u64, [0f64; 2], 0usize);
+        let mut out = (0u64, 0u64, [0f64; 2], 0usize, true);
         for (round, n) in [count / 4, count].into_iter().enumerate() {
             let live = Live::with(mode, true, None);
             let mut bytes = 0u64;
@@ -344,13 +344,22 @@ pub fn run_iceflood(run: &mut Run, mode: u8, count: u32) {
                 live.rt.block_on(live.ice.verif_handle_packet(&p, from, rustrtc::transports::ice::IceSocketWrapper::Udp(live.sock.clone())));
             }
             out.2[round] = cpu_time() - t0;
-            if round == 1 { out.0 = super::alloc_retained().max(0) as u64; out.1 = bytes; out.3 = live.ice.remote_candidates().len(); }
+            if round == 1 {
+                out.0 = super::alloc_retained().max(0) as u64; out.1 = bytes; out.3 = live.ice.remote_candidates().len();
+                // after the flood the agent must still learn a NEW source (the genuine peer behind a new NAT binding): latching and
+                // nomination work only for addresses in the candidate table
+                let mut p = vec![0u8, 1, 0, 8, 0x21, 0x12, 0xA4, 0x42]; p.extend_from_slice(&[9; 12]); p.extend_from_slice(&[0, 6, 0, 3, b'a', b':', b'b', 0]);
+                let genuine: SocketAddr = "127.9.9.9:40001".parse().unwrap();
+                live.rt.block_on(live.ice.verif_handle_packet(&p, genuine, rustrtc::transports::ice::IceSocketWrapper::Udp(live.sock.clone())));
+                out.4 = mode == 0 || live.ice.remote_candidates().iter().any(|c| c.address == genuine);
+            }
             drop(live);
         }
         out
     });
     match r {
-        Ok((retained, bytes_in, t, cands)) => {
+        Ok((retained, bytes_in, t, cands, learns)) => {
+            if !learns { run.fail("lockout:ice::handle_stun_request:learned-candidate-table-full", &case, &format!("after {count} Binding requests from distinct sources ({cands} remote candidates) a request from a new source is no longer learned: no latching or nomination from a new address for the rest of the session")); }
             run.count_n(&format!("iceflood:retained_per_input_byte_x100:{mode}"), retained * 100 / bytes_in.max(1));
             run.count_n(&format!("iceflood:cpu_ms:{mode}"), (t[1] * 1000.0) as u64);
             run.count_n(&format!("iceflood:remote_candidates:{mode}"), cands as u64);
